@@ -36,7 +36,7 @@ PROBES = ["seek_at_loop_boundary", "seek_after_exhaustion", "relative_padding_se
           "indefinite_double_seek_before_render", "out_of_range_seek_rejected",
           "op_on_closed_iterator", "terminal_resized_before_relative_padding",
           "loops_completed_without_seek", "from_render_data_constructor",
-          "render_data_used_by_an_earlier_iterator"]
+          "render_data_used_by_an_earlier_iterator", "render_of_next_frame_failed"]
 COMPONENTS = {
     "real": ["term_image.render.RenderIterator", "Renderable._init_render_/_get_render_data_",
              "RenderArgs/RenderData", "padding.*"],
@@ -250,8 +250,27 @@ def run(ch, ctx, fault=None):
             op = ch.weighted("op", [
                 (12, "next"), (6, "seek"), (2, "duration"), (3, "padding"), (2, "args"),
                 (2, "size"), (1, "close"), (2, "resize"), (1, "rseek"), (1, "loop"),
+                (1 if cache is False and n is not None else 0, "next_failing"),
             ])
-            if op == "next":
+            if op == "next_failing":
+                # the render of the next frame (of a definite source) fails: the iterator is
+                # finalized there and then, the countdown keeps its value
+                import copy
+                if model.closed or copy.deepcopy(model).next() == "stop":
+                    continue
+                how = ch.pick("render_raises", ("StopIteration", "RuntimeError"))
+
+                def failing(how=how):
+                    raise StopIteration if how == "StopIteration" else RuntimeError("render failed")
+
+                hooks.on_render = failing
+                model.next()       # (a loop boundary on the way to that frame is crossed first)
+                want = "StopDefiniteIterationError" if how == "StopIteration" else how
+                model.close()
+                ctx.probe("render_of_next_frame_failed")
+                expect_exc(want, lambda: next(it), "next() with a render raising %s" % how, "next")
+                hooks.on_render = None
+            elif op == "next":
                 exp = model.next()
                 try:
                     got = next(it)
